@@ -35,6 +35,9 @@ class Recorder:
         self.yields: List[Any] = []
         self.fail_steps: Set[Any] = getattr(self, "fail_steps", set())
         self.foot: Dict[Any, Tuple[Any, Any]] = {}       # step uuid -> (written object uuid, read object uuid)
+        # step uuid -> iteration orders of the uuid sets of the step OBJECT THAT RUNS (Engine.compute deep-copies the plan
+        # for every run, and the copy of a set need not iterate like the original)
+        self.orders: Dict[Any, Dict[str, List[Any]]] = {}
 
     def ev(self, kind: str, u: Any) -> None:
         with self.lock:
@@ -63,6 +66,10 @@ def install() -> None:
                 cfw = a[1] if len(a) > 1 else kw.get("cfw")
                 frm = a[2] if len(a) > 2 else kw.get("from_cfw")
                 REC.foot[self.uuid] = (getattr(cfw, "uuid", None), getattr(frm, "uuid", frm))
+                REC.orders[self.uuid] = {"req": list(self.required_uuids), "tfs": list(getattr(self, "tfs_ids", []) or []),
+                                         "left": list(getattr(self, "left_framework_uuids", []) or []),
+                                         "right": list(getattr(self, "right_framework_uuids", []) or []),
+                                         "right_uuid": getattr(self, "right_framework_uuid", None)}
             except Exception:  # noqa: BLE001
                 pass
             REC.ev("begin", self.uuid)
@@ -205,8 +212,10 @@ def step_gate_key(session: Any, sid: int, uni: Universe) -> Any:
 # ------------------------------------------------------------------------------------------------------------
 
 def run_observed(session: Any, modes: Optional[Set[Any]] = None, stream: bool = False, timeout: float = 30.0,
-                 **kw: Any) -> Dict[str, Any]:
-    """Run a prepared session under a watchdog; returns begin order (sids), scans, outcome."""
+                 ren: Optional[Dict[Any, int]] = None, **kw: Any) -> Dict[str, Any]:
+    """Run a prepared session under a watchdog; returns begin order (sids), scans, outcome.
+    ren (export_plan(...)["_ren"]): if given, out["orders"][sid] holds the iteration orders of the uuid sets of the step
+    objects that actually ran (req / tfs / left / right, in the plan's numbering; right_uuid)."""
     from mloda.user import ParallelizationMode
     install()
     u2s = uuid_to_sid(session)
@@ -242,6 +251,11 @@ def run_observed(session: Any, modes: Optional[Set[Any]] = None, stream: bool = 
             objs[x] = len(objs) + 1
         return objs[x]
     out["foot"] = {u2s.get(k, -1): (oid(w), [oid(w)] + ([oid(r)] if r is not None else [])) for k, (w, r) in REC.foot.items()}
+    if ren is not None:
+        out["orders"] = {u2s.get(k, -1): {"req": [ren.get(u, 0) for u in v["req"]], "tfs": [ren.get(u, 0) for u in v["tfs"]],
+                                          "left": [ren.get(u, 0) for u in v["left"]], "right": [ren.get(u, 0) for u in v["right"]],
+                                          "right_uuid": ren.get(v["right_uuid"]) if v["right_uuid"] is not None else None}
+                         for k, v in REC.orders.items()}
     return out
 
 
